@@ -53,6 +53,12 @@ def check_case_oracle(case, sw, ob, table, baseline=None, base_ob=None):
     """C20's statement on what check-express printed for one (case, switches).  Returns (key, what) or None."""
     path = case.path()
     if ob["status"] in ("abort", "timeout") or ob["status"].startswith("signal"):
+        # a run that dies while printing the expected diagnostic quoted garbage (a conversion consumed a wrong argument)
+        for code, args in case.expect:
+            cut = [x for x in ob["diags"] if x[0] == code and x[3] != table.expected_message(code, args)]
+            if cut and not any(x[0] == code and x[3] == table.expected_message(code, args) for x in ob["diags"]):
+                return (f"arg:{code}", f"{code} printed as {cut[0][3]!r} and the run ends with {ob['status']}; the offending text is {args!r}, "
+                                       f"i.e. {table.expected_message(code, args)!r}")
         base = baseline
         if sw and base is not None and base != ob["status"]:
             return ("switch-abort", f"`check-express {' '.join('-' + o + ' ' + n for o, n in sw)} {path}` ends with {ob['status']} "
@@ -70,9 +76,16 @@ def check_case_oracle(case, sw, ob, table, baseline=None, base_ob=None):
         eb = sorted((d[0], d[3]) for d in base_ob["diags"] if d[4] and d[0] not in X.ORDER_DEPENDENT)
         if ea != eb:
             return ("switch-errors:" + sw[-1][1], f"`{cmd}` prints the ERROR diagnostics {ea[:4]}, without the switch {eb[:4]}")
+    known_files = {path} | set(getattr(case, "extra", {}))
+    if case.cls == "include":
+        for (code, f, line, msg, is_err) in ob["diags"]:
+            if f is not None and f != path and any(code == c and msg == table.expected_message(c, a) for c, a in case.expect):
+                return ("include-misattributes-file", f"after `INCLUDE '{f}';` (the file is never read) {code} {msg!r}, a fault of {path!r}, "
+                                                      f"is attributed to {f}:{line}")
     for (code, f, line, msg, is_err) in ob["diags"]:
-        if f is not None and f != path:
-            return (f"file:{code}", f"{code} is attributed to file {f!r}, the input is {path!r}")
+        if f is not None and f not in known_files:
+            return (f"file:{code}", f"{code} is attributed to file {f!r}, the files of this run are {sorted(known_files)}")
+    want_file = getattr(case, "expect_file", None) or path
     enabled_warnings = bool(sw)          # without -w/-i every warning is switched off
     for code, args in case.expect:
         if table.is_warning(code):
@@ -82,7 +95,11 @@ def check_case_oracle(case, sw, ob, table, baseline=None, base_ob=None):
                 continue
         want = table.expected_message(code, args)
         same_code = [x for x in ob["diags"] if x[0] == code]
-        if any(x[3] == want for x in same_code):
+        hits = [x for x in same_code if x[3] == want]
+        if hits:
+            if not any(x[1] == want_file for x in hits):
+                return (f"file:{code}", f"{code} {want!r} is attributed to {hits[0][1]!r}; the offending text is in {want_file!r} "
+                                        f"(files of the run: {sorted(known_files)})")
             continue
         if same_code:
             return (f"arg:{code}", f"{code} printed as {same_code[0][3]!r}; the offending text is {args!r}, i.e. {want!r}")
@@ -118,7 +135,7 @@ def run_cases(ctx, b, model, table, cases, sets_of, label):
     res = X.run_many(b, jobs, ctx.work)
     blocks = []
     for c in cases:
-        blocks.append(c.proto + [f"run check-express {X.sw_arg(sw)}" for sw in sets_of(c)])
+        blocks.append((c.proto + [f"run check-express {X.sw_arg(sw)}" for sw in sets_of(c)]) if c.proto else [])
     replies = model.ask(blocks)
     per_case = {}
     k = 0
@@ -142,9 +159,12 @@ def run_cases(ctx, b, model, table, cases, sets_of, label):
                 n_viol += 1
                 report_violation(ctx, b, table, c, sw, ob, v)
                 continue
+            if not c.proto:
+                continue            # oracle-only case (no model description)
             m = X.parse_run_reply(replies[ci][1 + j], table)
             drop = X.ORDER_DEPENDENT | ({"OVERLOADED_ATTR", "UNKNOWN_ATTR_IN_ENTITY"} if c.cls == "subtype-cycle" else set())
-            a, bb = X.canon(ob["diags"], drop=drop), X.canon(m["diags"], drop=drop)
+            wl = not getattr(c, "fixed_lines", False)
+            a, bb = X.canon(ob["diags"], with_lines=wl, drop=drop), X.canon(m["diags"], with_lines=wl, drop=drop)
             st_ok = ob["status"] == m["status"] or (c.cls == "subtype-cycle" and ob["status"] == "signal11") or \
                 (m.get("diverges") == "1" and (ob["status"] == "abort" or ob["status"].startswith("signal")))
             if ob["status"] == "signal11":
@@ -188,6 +208,8 @@ def report_violation(ctx, b, table, case, sw, ob, v):
             data, ob, what, case, sw = mc.data, mob, mv[1], mc, sw[-1:]
     ctx.violation(key, what, {
         "input_file": case.path(), "input_text": data.decode("latin-1"), "input_hex": data.hex(),
+        "extra_files": {k: v.decode("latin-1") for k, v in getattr(case, "extra", {}).items()},
+        "express_path": getattr(case, "express_path", None), "expect_file": getattr(case, "expect_file", None),
         "command": "check-express " + " ".join(f"-{o} {n}" for o, n in sw) + " " + case.path(),
         "switches": [list(x) for x in sw], "injected": {"class": case.cls, "expect": case.expect, "note": case.note},
         "observed": {"status": ob["status"], "diagnostics": [list(d) for d in ob["diags"]]}})
@@ -223,8 +245,11 @@ def corpus_cases():
     cdir = os.path.join(VERIF, "corpus", "C20")
     for f in sorted(os.listdir(cdir)) if os.path.isdir(cdir) else []:
         d = json.load(open(os.path.join(cdir, f)))
-        out.append(X.Case(f[:-5], bytes.fromhex(d["input_hex"]), d["proto"], d["cls"], [tuple(x) for x in d["expect"]],
-                          d["verdict"], d.get("warn", False), d.get("note", "")))
+        c = X.Case(f[:-5], bytes.fromhex(d["input_hex"]), d["proto"], d["cls"], [tuple(x) for x in d["expect"]],
+                   d["verdict"], d.get("warn", False), d.get("note", ""))
+        c.extra = {k: v.encode("latin-1") for k, v in d.get("extra_files", {}).items()}
+        c.fixed_lines = True            # the stored description carries 0-based line numbers: lines are not compared
+        out.append(c)
     return out
 
 
@@ -234,6 +259,8 @@ def run(ctx):
         return
     proof_ok, b, model, table = pr
     quick = ctx.tier == "quick"
+    consts = dict(kv.split("=") for kv in model.ask([["consts"]])[0][0].split()[1:])
+    X.LINE_BASE, X.LINE_RESET = int(consts.get("lineBase", 0)), consts.get("lineReset") == "true"
     sets_cache = {}
 
     def sets_of(c):
@@ -255,7 +282,17 @@ def run(ctx):
     # every class name the table carries x {-w,-i} on one schema per guarded diagnostic (+ a valid one)
     base = G.gen_schema(ctx.rng, 4)
     sweep = [X.make_case("sw_valid", base, "valid", [], "accept")]
-    for mn in ("select_cycle", "sub_cycle", "entity_as_type", "undef_sub", "wrong_argc", "small_real"):
+    import importlib.util
+    spec = importlib.util.spec_from_file_location("x_resolvegen", os.path.join(VERIF, "tools", "extract.d", "resolvegen.py"))
+    rg = importlib.util.module_from_spec(spec); spec.loader.exec_module(rg)
+    shapes = ["select_cycle", "sub_cycle", "entity_as_type", "undef_sub", "wrong_argc", "small_real"]
+    for g in rg.guarded_sites(B.REPO):
+        if g not in X.GUARD_SHAPES:
+            ctx.broken.append(("guarded site without an input shape", f"ERRORis_enabled( {g} ) in src/express: the class sweep has no schema "
+                               f"exercising the construct behind it (add one to vlib/express_front.GUARD_SHAPES)"))
+        shapes += [m for m in X.GUARD_SHAPES.get(g, []) if m not in shapes]
+    shapes += [m for ms in X.GUARD_SHAPES.values() for m in ms if m not in shapes]
+    for mn in shapes:
         for _ in range(20):
             f = G.mutate(base, mn, ctx.rng)
             if f is not None:
@@ -274,6 +311,7 @@ def run(ctx):
     streams.append(("class-sweep", sweep))
     streams.append(("generated", X.gen_cases(ctx.rng, 12 if quick else 120, 6)))
     streams.append(("multi-schema", X.gen_file_cases(ctx.rng, 6 if quick else 60)))
+    streams.append(("multi-file", X.gen_multifile_cases(ctx.rng, 5 if quick else 50)))
     graphs = []
     for k in range(30 if not big else 400):
         graphs.append(X.gen_graph_case(ctx.rng, f"gs{k}", "sub", outside=(k % 3 == 0)))
@@ -320,6 +358,8 @@ def replay(ctx, path):
     inj = r.get("injected", {})
     c = X.Case(r["input_file"][:-4], bytes.fromhex(r["input_hex"]), [], inj.get("class", "?"),
                [tuple(x) for x in inj.get("expect", [])], "reject")
+    c.extra = {k: v.encode("latin-1") for k, v in r.get("extra_files", {}).items()}
+    c.express_path, c.expect_file = r.get("express_path"), r.get("expect_file")
     sw = [tuple(x) for x in r.get("switches", [])]
     res = X.run_tool(b, "check-express", c, sw, ctx.work)
     ob = observed(res, table)
